@@ -39,6 +39,9 @@ structure SFUser (α ε : Type) where
 
 structure SF (α : Type) where
   mode : GradMode
+  /-- `finite_diff_bounds` (used by the differencing modes only) -/
+  lb : Vec α
+  ub : Vec α
   x : Vec α
   f : α
   g : Vec α
@@ -53,8 +56,9 @@ structure SF (α : Type) where
 
 variable {α ε : Type}
 
-def SF.new [OfNat α 0] [OfNat α 1] (mode : GradMode) (x0 : Vec α) : SF α :=
-  { mode, x := x0, f := 0, g := [], fUpd := false, gUpd := false, nfev := 0, ngev := 0,
+def SF.new [OfNat α 0] [OfNat α 1] (mode : GradMode) (x0 : Vec α)
+    (lb : Vec α := []) (ub : Vec α := []) : SF α :=
+  { mode, lb, ub, x := x0, f := 0, g := [], fUpd := false, gUpd := false, nfev := 0, ngev := 0,
     scale := 1, log := [] }
 
 section
@@ -83,7 +87,13 @@ def SF.callFs (u : SFUser α ε) : SF α → List (Vec α) → Except ε (SF α 
     let (s, vs) ← SF.callFs u s ps
     pure (s, v :: vs)
 
-def SF.updGrad (u : SFUser α ε) (s : SF α) : Except ε (SF α) :=
+/-- `np.where(lb == ub, 0.0, g)`: the partial derivative along a variable fixed by equal
+bounds is reported as zero (scalar_function.py, after `approx_derivative`). -/
+def zeroFixed [OfNat α 0] : Vec α → Vec α → Vec α → Vec α
+  | l :: ls, u :: us, g :: gs => (if feq l u then 0 else g) :: zeroFixed ls us gs
+  | _, _, gs => gs
+
+def SF.updGrad [OfNat α 0] (u : SFUser α ε) (s : SF α) : Except ε (SF α) :=
   if s.gUpd then pure s else
   match s.mode with
   | .callable => do
@@ -94,9 +104,9 @@ def SF.updGrad (u : SFUser α ε) (s : SF α) : Except ε (SF α) :=
     let s ← s.updFun u
     let s := { s with ngev := s.ngev + 1 }
     let (s, vs) ← SF.callFs u s (u.fdPts s.x s.f)
-    pure { s with g := u.fdComb s.x s.f vs, gUpd := true }
+    pure { s with g := zeroFixed s.lb s.ub (u.fdComb s.x s.f vs), gUpd := true }
 
-variable [Mul α]
+variable [Mul α] [OfNat α 0]
 
 def SF.funv (u : SFUser α ε) (s : SF α) (x : Vec α) : Except ε (SF α × α) := do
   let s ← (s.updateX x).updFun u
